@@ -190,7 +190,11 @@ def role_names(fn):
 
 def method_cfg(world, cls_qname, name):
     r = world.method(cls_qname, name)
-    fn = role_names(r[2])
+    from .unroll import expand_quantifiers
+    from .inline import acopy
+    fq = acopy(r[2])
+    fn = fq if expand_quantifiers(fq) else r[2]
+    fn = role_names(fn)
     fn = normalise(fn, world, LOC, world.cls(cls_qname),
                    primitives=PRIMITIVES)
     q = "%s.%s" % (cls_qname, name)
